@@ -375,7 +375,9 @@ var (
 	reMv       = reSq + reSq + `[qrbn]?`
 	reIdName   = regexp.MustCompile(`^id name chess-3 \S+$`)
 	reIdAuthor = regexp.MustCompile(`^id author Paul Sonkoly$`)
-	reOption   = regexp.MustCompile(`^option name \S+ type (spin default -?\d+ min -?\d+ max -?\d+|check default (true|false))$`)
+	// any option declaration of the UCI grammar (names may contain spaces; the set and order of options is not
+	// constrained by the property)
+	reOption   = regexp.MustCompile(`^option name \S+( \S+)* type (spin default -?\d+ min -?\d+ max -?\d+|check default (true|false)|button|string default .*|combo default \S+( var \S+)+)$`)
 	reMockInfo = regexp.MustCompile(`^info string mock (\d+) (\d+)( pv( ` + reMv + `)+)?$`)
 	reMockAck  = regexp.MustCompile(`^info string ponderhit (\d+)$`)
 	// an info line of the real search: `info`, then fields `<key> <integer>` (score: cp / mate and an integer) in
